@@ -105,8 +105,21 @@ def _clean_text(min_size=1, max_size=3):
                     min_size=min_size, max_size=max_size).map("".join)
 
 
+IP_HOSTS = ["[::1]", "[2001:DB8::1]", "[2001:db8:0:0:0:0:2:1]", "[::ffff:192.168.0.1]", "[FE80::A]", "127.0.0.1", "192.168.0.1", "8.8.8.8"]
+
+
 @st.composite
-def hosts(draw, idn=True, upper=True, max_sub=2, tlds=TLDS, labels=ASCII_LABELS):
+def hosts(draw, idn=True, upper=True, max_sub=2, tlds=TLDS, labels=ASCII_LABELS, ip=False, rootdot=False):
+    if ip and draw(st.integers(0, 11)) == 0:
+        return draw(st.sampled_from(IP_HOSTS))
+    h = draw(_name_hosts(idn=idn, upper=upper, max_sub=max_sub, tlds=tlds, labels=labels))
+    if rootdot and draw(st.integers(0, 11)) == 0:
+        h += "."                       # fully qualified spelling
+    return h
+
+
+@st.composite
+def _name_hosts(draw, idn=True, upper=True, max_sub=2, tlds=TLDS, labels=ASCII_LABELS):
     n = draw(st.integers(0, max_sub))
     labs = [draw(st.sampled_from(labels)) for _ in range(n + 1)]
     out = []
